@@ -2,7 +2,9 @@ import D2V.Drv.WatchDrv
 open Lean D2V.Drv D2V.Watch D2V.WatchDrv
 
 /-- C45 driver.  Spec-on-impl (raw trace order): `noAdmitAfterClosing` — no handler is admitted after close() set
-    `closing`; `closeAfterAllHandlers` — when close() returns every admitted handler has passed its exit point;
+    `closing`; `noAdmitAfterShutdownBegan` — nor after a connected client's handler left because close() cancelled the
+    context (in the code under test the flag is set before the cancel, so such an admission cannot exist);
+    `singleTeardown` — of several close() calls only one runs the teardown; `closeAfterAllHandlers` — when close() returns every admitted handler has passed its exit point;
     `noLeak` — at the end of the session every admitted handler has exited; run() returned.
     model-vs-impl: the trace is a run of `D2V.Watch.step` and ends in a state without active handlers. -/
 def handleC45 (j : Json) : Except String Verdict := do
@@ -16,11 +18,28 @@ def handleC45 (j : Json) : Except String Verdict := do
   let mut closing := false
   let mut admitted : List Int := []
   let mut exited : List Int := []
+  let mut dropped : List Int := []
+  let mut signal := false
+  let mut cancelSeen : Option Nat := none   -- index of the first event that shows close() has cancelled the context
   for e in s.evs do
-    if e.k == "close_begin" then closing := true
+    if e.k == "shutdown" then signal := true
+    if e.k == "drop" then dropped := e.c :: dropped
+    if e.k == "close_begin" then
+      if closing then
+        return .specfalse "singleTeardown" s!"event {i}: a second close() ran the teardown although shutdown had begun (two close_begin) :: {window s.evs i}"
+      closing := true
+    -- a handler whose peer is still there leaves its loop only because the watcher's context was cancelled; without
+    -- the shutdown signal that is close()'s doing: shutdown has begun
+    if !signal && cancelSeen.isNone && !dropped.contains e.c
+        && (e.k == "unregister" || (e.k == "write" && !e.ok)) then
+      cancelSeen := some i
     if e.k == "admitted" then
       if closing then
         return .specfalse "noAdmitAfterClosing" s!"event {i}: client {e.c} admitted after close() had begun :: {window s.evs i}"
+      match cancelSeen with
+      | some k =>
+        return .specfalse "noAdmitAfterShutdownBegan" s!"event {i}: client {e.c} admitted although close() had already cancelled the context (event {k}: a connected client's handler left) :: {window s.evs i}"
+      | none => pure ()
       admitted := e.c :: admitted
     if e.k == "exit" || e.k == "accept_fail" then exited := e.c :: exited
     if e.k == "close_return" then
